@@ -80,14 +80,23 @@ func NewCheck(property, level string) *Check {
 		distinct:   map[string]struct{}{},
 	}
 	c.loadFindings()
-	_ = os.MkdirAll(filepath.Join(Dir(), "evidence"), 0o755)
+	_ = os.MkdirAll(EvidenceDir(), 0o755)
 	// Remove a stale evidence file first: if this run dies, no evidence must remain.
 	_ = os.Remove(c.evidencePath())
 	return c
 }
 
+// EvidenceDir is /verif/evidence unless VERIF_EVIDENCE_DIR overrides it (used when a check is run against a
+// deliberately broken tree, so that committed evidence of the real tree is not clobbered).
+func EvidenceDir() string {
+	if d := os.Getenv("VERIF_EVIDENCE_DIR"); d != "" {
+		return d
+	}
+	return filepath.Join(Dir(), "evidence")
+}
+
 func (c *Check) evidencePath() string {
-	return filepath.Join(Dir(), "evidence", c.Property+".json")
+	return filepath.Join(EvidenceDir(), c.Property+".json")
 }
 
 func (c *Check) loadFindings() {
@@ -187,6 +196,9 @@ func (c *Check) Violation(fingerprint, what string, replay any) bool {
 		return true
 	}
 	dir := filepath.Join(Dir(), "replays")
+	if d := os.Getenv("VERIF_EVIDENCE_DIR"); d != "" {
+		dir = filepath.Join(d, "replays")
+	}
 	_ = os.MkdirAll(dir, 0o755)
 	safe := strings.Map(func(r rune) rune {
 		if r >= 'a' && r <= 'z' || r >= 'A' && r <= 'Z' || r >= '0' && r <= '9' || r == '-' || r == '_' || r == '.' {
